@@ -56,6 +56,11 @@ func c08Steps(c *c08Case) []job.Step {
 		}
 	}
 	st = append(st, job.Step{Kind: job.List, Dir: "a", Fmt: "txt", API: "infos"})
+	st = append(st, job.Step{Kind: job.List, Dir: "a", Fmt: "csv", Stop: true})
+	if len(c.focus) > 0 {
+		st = append(st, job.Step{Kind: job.List, Dir: "a", Fmt: "dot", Focus: c.focus[0]}, job.Step{Kind: job.List, Dir: "a", Fmt: "json", Focus: c.focus[0]})
+	}
+	st = append(st, job.Step{Kind: job.Diff, Dir1: "a", Dir2: "b", Fmt: "txt", Stop: true})
 	for _, f := range []string{"txt", "csv", "md", "dot"} {
 		st = append(st, job.Step{Kind: job.Diff, Dir1: "a", Dir2: "b", Fmt: f})
 		st = append(st, job.Step{Kind: job.Diff, Dir1: "b", Dir2: "a", Fmt: f})
